@@ -40,7 +40,7 @@ CLAIMED = {
    ref="§4 C19"),
  "C10": dict(level="other",
    technique="static analysis: who-may-call and lock-bracket dominance on the exchange path of package kmipclient; teardown-before-error-exit dominance after the request hand-off; per-connection ownership of hand-off channels; must-pass-through (Recv, ok edge of the assertion, store) before the read loop's hand-off",
-   text="Decides the structural reasons why a caller can only get its own response, for every interleaving at once: an exchange exists only inside doRountrip between Lock and the deferred Unlock of a mutex every constructor creates afresh; once the request has been handed to the connection every error exit of the exchange is dominated by a teardown (the missing teardown when the context ends between send and recv is repaired and guarded), so no connection with a response still in flight is ever reused; channels are created per connection, the old connection is closed before a new one replaces it, send/recv refuse a closed connection, and the read loop hands over only the response it has just received (so a server-originated message cannot shift the responses of later calls). Server-side reordering and the end-to-end statement under a real scheduler are not decided.",
+   text="Decides the structural reasons why a caller can only get its own response, for every interleaving at once: an exchange exists only inside doRountrip between Lock and the deferred Unlock of a mutex every constructor creates afresh; once the request has been handed to the connection every error exit of the exchange is dominated by a teardown (the missing teardown when the context ends between send and recv is repaired and guarded), so no connection with a response still in flight is ever reused; channels are created per connection, the old connection is closed before a new one replaces it, send/recv refuse a closed connection, after a completed write send reports nothing derived from the caller's context, and the read loop hands over only the response it has just received (so a server-originated message cannot shift the responses of later calls). Server-side reordering and the end-to-end statement under a real scheduler are not decided.",
    ref="§4 C10"),
  "C11": dict(level="other",
    technique="static analysis: loop-bound recogniser (constant counter, decrement on the single back edge, guard) and retry-set reachability on doRountrip; the C08 channel-discipline rules instantiated for the client connection; goroutine inventory; path rule on doRountrip (re-dial or liveness test before the first exchange), error pass-through of Stream.Recv on the Read error edge, never-nil rule for Client.conn",
@@ -48,23 +48,23 @@ CLAIMED = {
    ref="§4 C11"),
  "C08": dict(level="other",
    technique="static analysis: channel-discipline rules over the SSA of package kmipserver (close-by-sole-sender, buffered reply hand-off, select-with-Done release of every blocking operation), deferred-recover dominance around handler invocation, path counting of sends in the connection loop, nil-return contract between the batch stages through the call graph",
-   text="Decides the structural conditions under which no client behaviour or handler outcome can crash, wedge or leak the server: no channel is closed by anyone but its sole sender (the racy close that crashed the process is repaired and guarded), the per-message reply channel is buffered so the write loop cannot be left blocked, every handler invocation is dominated by a deferred recover() that yields a failed item, each path around the connection loop handles one request and sends exactly one response with no goroutine spawned on the way and a single stream writer (order by construction), an undecodable but framed request gets one Invalid Message response without teardown, every blocking channel operation has a <-ctx.Done() alternative with terminate cancelling first, and a pointer result that its caller dereferences without a nil test on the connection goroutine is never the nil constant in any library callee. Deadlock-freedom and liveness under a scheduler are not decided.",
+   text="Decides the structural conditions under which no client behaviour or handler outcome can crash, wedge or leak the server: no channel is closed by anyone but its sole sender (the racy close that crashed the process is repaired and guarded), the per-message reply channel is buffered so the write loop cannot be left blocked, every handler invocation is dominated by a deferred recover() that yields a failed item, each path around the connection loop handles one request and sends exactly one response with no goroutine spawned on the way and a single stream writer (order by construction), an undecodable but framed request gets one Invalid Message response without teardown (and no decode-error sentinel of the codec wraps an error the connection loop takes for a peer close), every blocking channel operation has a <-ctx.Done() alternative with terminate cancelling first, and a pointer result that its caller dereferences without a nil test on the connection goroutine is never the nil constant in any library callee. Deadlock-freedom and liveness under a scheduler are not decided.",
    ref="§4 C08"),
  "C16": dict(level="other",
    technique="static analysis: call-order and dominance checks on Shutdown/Serve/handleConn, WaitGroup accounting (Add before go, deferred Done first, Wait reachable from the deferred Close), goroutine join inventory",
    text="Decides hook pairing and drain structure for every schedule at once: the terminate hook is deferred exactly once, only on the connect hook's success edge and with its context, after which handlers run synchronously in the same function; every connection goroutine is counted before it starts and un-counted by its first deferred call; Shutdown closes the listener, cancels the receive context, arms a 3 s timer that only cancels, waits, then cancels and returns; the loop waits on the receive context and contexts derive from the root; the connection object is closed on every exit of handleConn that follows its creation, and every goroutine the package starts is joined on the way (the missing join of the per-connection loops is repaired and guarded). Timing and per-request outcomes under a real scheduler are not decided.",
    ref="§4 C16"),
  "C04": dict(level="other",
-   technique="static analysis: writer/reader lexical agreement rules over the XML/JSON codecs (parse-call base/width dataflow, forbidden Go-quoting in the JSON writer, unit-of-duration and separator/layout sibling checks, non-nil origin analysis of decoded byte strings, use of the sign pad in every big-integer writer)",
-   text="Decides the structural part of XML/JSON interchangeability: for every parse call of the text readers, a hexadecimal spelling is read with a parser that covers every bit pattern the writers can emit for that width, a 0x prefix is followed by a base-16 parse, durations are seconds times time.Second on every return, mask separators and date layouts written are the ones read, enum/mask lookups default the tag identically on both sides, and the JSON writer never uses Go-syntax quoting (strings go through encoding/json; raw names are registry names proven safe by C17.N3). Every writer that renders a big integer consumes the sign pad byte returned by bigIntToBytes, and the three ByteString readers return a non-nil slice on success (a present empty value must not become an absent one under omitempty). Four defects found this way are repaired and guarded. Byte-identity of the binary re-encoding and reproduction of foreign XML need execution and are not claimed.",
+   technique="static analysis: writer/reader lexical agreement rules over the XML/JSON codecs (parse-call base/width dataflow, forbidden Go-quoting in the JSON writer, unit-of-duration and separator/layout sibling checks, non-nil origin analysis of decoded byte strings, use of the sign pad in every big-integer writer, interval arithmetic on the bounds tests of the numeric readers)",
+   text="Decides the structural part of XML/JSON interchangeability: for every parse call of the text readers, a hexadecimal spelling is read with a parser that covers every bit pattern the writers can emit for that width, a 0x prefix is followed by a base-16 parse, durations are seconds times time.Second on every return, mask separators and date layouts written are the ones read, enum/mask lookups default the tag identically on both sides, and the JSON writer never uses Go-syntax quoting (strings go through encoding/json; raw names are registry names proven safe by C17.N3). Every writer that renders a big integer consumes the sign pad byte returned by bigIntToBytes, and the three ByteString readers return a non-nil slice on success (a present empty value must not become an absent one under omitempty), and every bounds test of the numeric text readers accepts both end points of the type's range. Four defects found this way are repaired and guarded. Byte-identity of the binary re-encoding and reproduction of foreign XML need execution and are not claimed.",
    ref="§4 C04"),
  "C18": dict(level="other",
    technique="static analysis: range abstraction of every narrowing conversion in the text readers (bit size of the parse or dominating bounds check) against the writers' total domain; writer-panic preconditions",
    text="Decides `whatever a reader can return, every writer can take`: every conversion of a parsed number to a narrower type or to a duration in the XML/JSON readers is justified by the bit size of its parse call or by a dominating bounds check inside the writers' domain (intervals in [0,2^32) s, 32-bit integers and enumerations), every explicit panic of a writer has a precondition those ranges (or C01.P5) establish, the alternative lexical forms accepted on input land in the canonical domain (a tag being a 24-bit quantity), and text strings are handed back verbatim by the XML/JSON readers. This is a necessary condition for re-encodability of accepted input; byte-equality of the second re-encoding is value-level and not decided.",
    ref="§4 C18"),
  "C03": dict(level="other",
-   technique="static analysis: constant tables of the binary writer against a hand-written specification table; byte-count abstract domain over the value closures; call-order and value-identity checks of the header writer and the length back-patch; must-pass-through of the sign-bit test in bigIntToBytes",
-   text="Decides the structural clauses of wire-format conformance for every item the writer can emit: the ten type codes/names equal KMIP 1.4 9.1.1 and the reader accepts exactly them; each fixed-width writer declares the specified length and appends exactly 8 value+padding bytes; string writers declare len(value) and right-pad with padForLen(len,8) zero bytes; big integers are written with the sign padding inside the declared length at a multiple of 8; the header is tag(3 big-endian bytes), type, length in that order and the structure length is back-patched at the placeholder with len(after)-offset-4; reader and writer agree on fixed lengths; and the sign-word decision examines the top bit for both signs. The arithmetic inside padForLen/bigIntToBytes and agreement with an independent parser over the value space need an executable oracle and are not claimed.",
+   technique="static analysis: constant tables of the binary writer against a hand-written specification table; byte-count abstract domain over the value closures; call-order and value-identity checks of the header writer and the length back-patch; must-pass-through of the sign-bit test in bigIntToBytes; exhaustive evaluation of the reader's sign predicate over the 256 leading-byte values",
+   text="Decides the structural clauses of wire-format conformance for every item the writer can emit: the ten type codes/names equal KMIP 1.4 9.1.1 and the reader accepts exactly them; each fixed-width writer declares the specified length and appends exactly 8 value+padding bytes; string writers declare len(value) and right-pad with padForLen(len,8) zero bytes; big integers are written with the sign padding inside the declared length at a multiple of 8; the header is tag(3 big-endian bytes), type, length in that order and the structure length is back-patched at the placeholder with len(after)-offset-4; reader and writer agree on fixed lengths; and the sign-word decision examines the top bit for both signs; on the reading side the sign test of bytesToBigInt is evaluated for all 256 leading bytes and must equal the two's-complement sign. The arithmetic inside padForLen/bigIntToBytes and agreement with an independent parser over the value space need an executable oracle and are not claimed.",
    ref="§4 C03"),
  "C07": dict(level="other",
    technique="static analysis: SSA value-identity and dominance checks on Stream.Recv/computeNeededBytes (bounded-extent slices, must-pass-through of the size limit before buffer growth, non-nil error on every non-decode exit)",
@@ -72,7 +72,7 @@ CLAIMED = {
    ref="§4 C07"),
  "C02": dict(level="other",
    technique="static analysis over the decode-reachable call graph: forbidden-construct rules (panic sites, unchecked type assertions), reader typestate (validate-before-use by dominance), length-guard dataflow for every index/slice with a recognised per-type length table, input-alias taint, per-loop progress",
-   text="Enumerates every construct that could make a decoder panic, over-read, spin or write into its input, in the ~200 repository functions reachable while untrusted bytes are decoded, and discharges each by a local structural argument: explicit panics only where the guard depends on the destination type; no unchecked type assertion on an input-chosen value; every binary reader validated before use and confined to its parent's declared extent; every index, slice and fixed-width read dominated by a sufficient length fact (guard, validated typestate, or the length table recognised in validate()); no store/append through a slice aliasing the input; every loop consumes input or is a bounded range and every typed read advances; no reader error dropped. This found five crash/mutation defects, now repaired and guarded. Standard-library internals, memory exhaustion and a full termination proof are outside.",
+   text="Enumerates every construct that could make a decoder panic, over-read, spin or write into its input, in the ~200 repository functions reachable while untrusted bytes are decoded, and discharges each by a local structural argument: explicit panics only where the guard depends on the destination type; no unchecked type assertion on an input-chosen value; every binary reader validated before use and confined to its parent's declared extent (validate() is header-first and compares the padded length with the bytes left); every index, slice and fixed-width read dominated by a sufficient length fact (guard, validated typestate, or the length table recognised in validate()); no store/append through a slice aliasing the input; every loop consumes input or is a bounded range and every typed read advances; no reader error dropped. This found five crash/mutation defects, now repaired and guarded. Standard-library internals, memory exhaustion and a full termination proof are outside.",
    ref="§4 C02"),
  "C01": dict(level="other",
    technique="static analysis: codec plan model of the reflective coder over all reachable struct types + SSA path-by-path trace comparison of every hand-written decoder with the encoder of the same struct",
@@ -88,7 +88,7 @@ CLAIMED = {
    ref="§4 C05"),
  "C06": dict(level="other",
    technique="static analysis: exhaustive table checks of the operation/object/attribute registries (go/types interface satisfaction, SSA constant returns) + dominance checks in the four hand-written payload decoders",
-   text="Exhaustive over the three registries (27 operations x 2 directions, 9 object types, 50 attributes): each registered type implements the interface the reflective constructor asserts, reports the code it is registered under, occupies one slot, and has the TTLV kind of the hand-written specification table; the batch-item decoders pick the payload constructor of their own direction from their own decoded Operation; unknown operations/attributes fall back to the opaque container and the unknown-object error is checked before the object is decoded at every call site; the attribute decoder stores the typed value on every success exit of a known attribute, looks the type table up with the exact name, and the generic decoder fills the value pre-seeded behind an interface instead of replacing it (so the opaque payload keeps its operation code). Byte-identity of opaque re-encoding is value-level and not decided.",
+   text="Exhaustive over the three registries (27 operations x 2 directions, 9 object types, 50 attributes): each registered type implements the interface the reflective constructor asserts, reports the code it is registered under, occupies one slot, and has the TTLV kind of the hand-written specification table; the batch-item decoders pick the payload constructor of their own direction from their own decoded Operation; unknown operations/attributes fall back to the opaque container and the unknown-object error is checked before the object is decoded at every call site; the attribute decoder stores the typed value on every success exit of a known attribute, looks the type table up with the exact name, a decoder that selects the object type from a list element scans from position 0, and the generic decoder fills the value pre-seeded behind an interface instead of replacing it (so the opaque payload keeps its operation code). Byte-identity of opaque re-encoding is value-level and not decided.",
    ref="§4 C06"),
 }
 
